@@ -451,6 +451,10 @@ thread_local! {
     static LAST_PANIC: RefCell<String> = const { RefCell::new(String::new()) };
 }
 
+pub fn last_panic() -> String {
+    LAST_PANIC.with(|p| p.borrow().clone())
+}
+
 /// Install a quiet panic hook that remembers the message and location.
 pub fn install_panic_hook() {
     std::panic::set_hook(Box::new(|info| {
